@@ -295,6 +295,51 @@ def query_main_rule(rep):
     rep.floor("calls of mfront-query's main into mfront::", 5)
 
 
+def deref_under_end_rule(rep, units):
+    """DEREF-UNDER-END (contradiction rule): inside the branch taken when an iterator equals the end() of a container, that iterator is
+    not dereferenced.  Over every function (closures included) of mfront-query, whose queries look names up in the description."""
+    d = cfgdump(units, os.path.join(OUT, "C35", "dumpquery"), funcs=r"^(mfront::|main)", root=REPO)
+    nif = 0
+    for f in load_functions(d):
+        for s_, n in f.stmts.items():
+            if n["k"] != "IfStmt":
+                continue
+            bo = f.binop(n["cond"])
+            if not bo or bo[0] != "==":
+                continue
+            it = None
+            for a, b in ((bo[1], bo[2]), (bo[2], bo[1])):
+                bn = f.stmts.get(f.strip(b))
+                an = f.stmts.get(f.strip(a))
+                if bn is not None and bn["k"] == "CXXMemberCallExpr" and (bn.get("callee") or "").rsplit("::", 1)[-1] in ("end", "cend") and \
+                        an is not None and an["k"] == "DeclRefExpr" and an.get("local"):
+                    it = an
+            if it is None:
+                continue
+            nif += 1
+            ks = [k for k in f.kids(s_) if k > 0]
+            then = ks[-2] if len(ks) >= 3 else ks[-1]       # cond, then[, else]
+            if len(ks) >= 2 and ks[-1] != n["cond"]:
+                then = ks[1] if ks[0] == n["cond"] else then
+            hit = None
+            for x in sorted(f.walk(then)):
+                m = f.stmts[x]
+                if m["k"] == "CXXOperatorCallExpr" and m.get("op") in ("->", "*") and m.get("args"):
+                    a0 = f.stmts.get(f.strip(m["args"][0]))
+                    if a0 is not None and a0["k"] == "DeclRefExpr" and a0.get("declId") == it.get("declId"):
+                        hit = x
+                        break
+                bo2 = f.binop(x)
+                if bo2 and bo2[0] == "=" and f.stmts.get(f.strip(bo2[1]), {}).get("declId") == it.get("declId"):
+                    break
+            if hit is not None:
+                rep.fail("DEREF-UNDER-END@%s#%s" % (f.qname.split("(")[0][:80], it.get("name")), "%s: '%s' is dereferenced inside the branch taken when it equals "
+                         "end(): looking up a name that is absent reads past the container (segmentation fault of mfront-query)"
+                         % (rel(f.short_loc(hit)), it.get("name")))
+    rep.count("branches on 'iterator == end()' examined", nif)
+    rep.floor("branches on 'iterator == end()' examined", 3)
+
+
 def run(tier):
     rep = Report("C35", tier, "other", RULE)
     allu = units_under("mfront/src")
@@ -347,6 +392,7 @@ def run(tier):
     rep.floor("loops examined for progress", 60)
     lock_unwind_rule(rep)
     query_main_rule(rep)
+    deref_under_end_rule(rep, units_under("mfront-query/src"))
     C54.smart_pointer_rule(rep, funcs, scope_re=r"^mfront::.*::(treat|set|add|register|handle)[A-Z]\w*$", accepted=ACCEPTED, what="mfront")
     rep.floor("iterator dereference sites", 300)
     rep.assumptions += ["a necessary condition only: of termination, only 'no loop has a state-preserving trip' (LOOP-PROGRESS) and 'no unguarded recursion on files' are decided; the other sources of undefined behaviour are not decided",
